@@ -985,8 +985,6 @@ class ServerOptions(Options):
             for k in ('stdout', 'stderr'):
                 lf_key = '%s_logfile' % k
                 lf_val = get(section, lf_key, Automatic, expansions=expansions)
-                if isinstance(lf_val, basestring):
-                    lf_val = expand(lf_val, expansions, lf_key)
                 lf_val = logfile_name(lf_val)
                 logfiles[lf_key] = lf_val
 
